@@ -215,7 +215,7 @@ def main(argv: List[str]) -> int:
         else:
             ob(True, "", "")
     # ------------------------------------------------------------------ (d) creation histories (bounded: length <= 2 over 4 configurations), subprocess-isolated
-    kinds = ["fresh", "nodetail", "forbid", "custom", "fresh+hook"]
+    kinds = ["fresh", "nodetail", "forbid", "custom", "fresh+hook", "lenient"]
     specs = [("alone", k, {"history": [k], "report": [0]}) for k in kinds]
     for a in kinds:
         for b in kinds:
@@ -274,7 +274,7 @@ def main(argv: List[str]) -> int:
             ob(True, "", "")
     run.assume(
         "thread clause: decided through the lock-ownership obligation on _resolve_forward_references (a sufficient condition) and the no-shared-mutable-state frame; schedules are explored only as single pre-emptions at line granularity (bounded, labelled); cattrs/attrs are assumed thread-safe outside the critical section",
-        "histories are explored up to length 2 over {fresh, detailed_validation=False, forbid_extra_keys=True, user converter with a custom hook, fresh converter customised after it was handed out} plus five fresh converters (bounded)",
+        "histories are explored up to length 2 over {fresh, detailed_validation=False, forbid_extra_keys=True, user converter with a custom hook, fresh converter customised after it was handed out, user converter with lenient enum hooks} plus five fresh converters (bounded)",
         "frame obligations are structural facts about the source (no writes to module-level state, no shared mutable captured by hooks)",
     )
     return run.finish(
@@ -284,7 +284,7 @@ def main(argv: List[str]) -> int:
             "discharged": ok,
             "evaluations": hist_runs + sched_runs,
             "distinct_nontrivial": hist_runs + len(set(points)),
-            "rule": "histories: every ordered pair of 5 converter configurations + 5 fresh; schedules: thread A suspended at the k-th line event inside lsprotocol during its first get_converter()+use, thread B runs to completion, A resumes",
+            "rule": "histories: every ordered pair of 6 converter configurations + 5 fresh; schedules: thread A suspended at the k-th line event inside lsprotocol during its first get_converter()+use, thread B runs to completion, A resumes",
             "history_runs": hist_runs,
             "schedule_points": len(points),
             "line_events_in_first_use": total_events,
